@@ -747,3 +747,284 @@ class GenerateHistograms(Contract):
 
 
 CONTRACTS.append(GenerateHistograms())
+
+
+# ---------------------------------------------------------------------------------------------
+class ProcessBeads(Contract):
+    """C11 / C10 for the beads table: for an arbitrary row of a Beads table with any number of rows (loop cut, arbitrary prior
+    state, symbolic cells), exactly one entry is stored under the row identifier in each result dictionary; a row with a
+    documented fault (file not found, fewer than 400 events, gate fraction outside [0,1], unequal numbers of MEF values across
+    channels) stores (the ExcelUIException, None[, None]) and nothing escapes; a healthy row stores the gated sample
+    density2d(high_low?(start_end(to_rfi(load, scatter+fluorescence), 250, 100), scatter), scatter, fraction) and the result of
+    ONE get_transform_fxn call made with that sample, the values parsed from THIS row's '<channel> MEF Values' cells of the
+    fluorescence channels that have one (in instrument order), those channels, and this row's clustering channels -- or None
+    when the row gives no MEF values.  Library steps are uninterpreted terms (as in ProcessSamples)."""
+    target = 'FlowCal.excel_ui.process_beads_table'
+    property_ids = ('C11', 'C10')
+    frame = False
+    max_paths = 4000
+    max_decisions = 400
+    assumptions = ('process_beads_table: one instrument configuration (FSC-H, SSC-H; FL1, FL2, FL3 with MEF Values columns for FL1 and '
+                   'FL2); cells symbolic; number of rows arbitrary (loop cut); plot=False, verbose=False; Instrument ID refers to an '
+                   'existing row',
+                   'library steps uninterpreted with the exception classes of their contracts; str.split/strip/isdigit/int uninterpreted '
+                   '(A-STR); the parsed MEF lists are symbolic-length lists whose element k is int(piece k) or NaN')
+
+    def cases(self):
+        return [{'label': 'full-output', 'full': True}, {'label': 'short-output', 'full': False}, {'label': 'empty-table', 'full': True, 'empty': True}]
+
+    def setup(self, I, case):
+        c = I.ctx
+        aux = {'case': case, 'gtf_calls': [], 'trace': []}
+        n = c.fresh_int('n_rows')
+        c.assume(n >= 0)
+        c.assume(n == 0 if case.get('empty') else n >= 1)
+        aux['n_rows'] = n
+        k_row = aux['row'] = c.fresh_int('row_k')
+        cell = lambda col: z3.Function('bcell_' + re.sub(r'\W', '_', col), Z, ST)
+        isnull = lambda col: z3.Function('bnull_' + re.sub(r'\W', '_', col), Z, B)
+        gf = z3.Function('bcell_gate_fraction', Z, R)
+        aux.update({'cell': cell, 'isnull': isnull, 'gf': gf, 'load_fails': c.fresh_bool('file_not_found'),
+                    'data_type_I': c.fresh_bool('integer_data'), 'nev': z3.Function('n_events_of', Z, Z)})
+        BCOLS = ['Instrument ID', 'File Path', 'Clustering Channels', 'FL1 MEF Values', 'FL2 MEF Values', 'Gate Fraction']
+        pieces = z3.Function('split_piece', ST, Z, ST)
+        npieces = z3.Function('split_count', ST, Z)
+        aux['pieces'], aux['npieces'] = pieces, npieces
+        ids = {}
+
+        def s_id(term):
+            return z3.IntVal(ids.setdefault(repr(term), len(ids)))
+
+        def oattr(I_, obj, name):
+            if obj.tag == 'table':
+                if name == 'empty':
+                    return I_.mk(n == 0, 'bool') if obj.payload == 'beads' else False
+                if name == 'columns':
+                    return stamp(Seq('list', list(BCOLS)))
+                if name == 'iterrows':
+                    return Builtin('iterrows', lambda I2, a, k: stamp(SymSeq('list', I2.mk(n, 'int'), lambda I3, i: stamp(Seq('tuple', [
+                        SV(z3.Function('brow_id', Z, ST)(i), 'str'), Opaque('row', ('beads', i))])))))
+                if name == 'loc':
+                    return Opaque('loc', obj.payload)
+            if obj.tag == 'sample':
+                if name == 'shape':
+                    return stamp(Seq('tuple', [SV(aux['nev'](s_id(obj.payload)), 'int'), 6]))
+                if name == 'data_type':
+                    return SV(z3.If(aux['data_type_I'], S('I'), S('F')), 'str')
+            if obj.tag == 'regex' and name == 'match':
+                def match(I2, a, k):
+                    m = obj.payload.match(I2.force(a[0]))
+                    return None if m is None else Opaque('match', m)
+                return Builtin('match', match)
+            if obj.tag == 'match' and name == 'group':
+                return Builtin('group', lambda I2, a, k: obj.payload.group(*a))
+            if obj.tag == 'density_output':
+                if name == 'gated_data':
+                    return obj.payload
+                if name == 'contour':
+                    return Opaque('contour')
+            if obj.tag == 'mef_output' and name == 'transform_fxn':
+                return Opaque('mef_fxn', obj.payload)
+            return PB.NOATTR
+
+        def ogetitem(I_, obj, key):
+            key = I_.force(key)
+            if obj.tag == 'loc':
+                return Opaque('row', (obj.payload, key))
+            if obj.tag == 'row':
+                kind, ident = obj.payload
+                if kind == 'instruments':
+                    return {'Forward Scatter Channel': SC[0], 'Side Scatter Channel': SC[1], 'Fluorescence Channels': 'FL1, FL2, FL3'}[key]
+                if kind == 'beads' and isinstance(key, str):
+                    if key == 'Gate Fraction':
+                        return SV(gf(ident), 'real')
+                    if key.endswith('MEF Values'):
+                        return OptVal(isnull(key)(ident), SV(cell(key)(ident), 'str'))
+                    if key in BCOLS:
+                        return SV(cell(key)(ident), 'str')
+                raise_py('KeyError', key)
+            raise_py('TypeError', 'not subscriptable')
+
+        def split_hook(I_, s_, a, kw):
+            sz = I_.z(s_)
+            cnt = npieces(sz)
+            I_.ctx.assume(cnt >= 1)
+            I_.ctx.use_axiom('A-STR:split uninterpreted (count/pieces)')
+            r = stamp(SymSeq('list', I_.mk(cnt, 'int'), lambda I3, i, sz=sz: SV(pieces(sz, i), 'str')))
+            r.no_raise = True
+            return r
+
+        def step(name):
+            def f(I_, a, k):
+                s_ = I_.force(a[0] if a else k.get('data'))
+                rest = [I_.force(x) for x in a[1:]]
+                return Opaque('sample', (name, s_.payload, tuple(repr_arg(I_, x) for x in rest),
+                                         tuple(sorted((kk, repr_arg(I_, vv)) for kk, vv in k.items() if kk != 'data'))))
+            return f
+
+        def load(I_, a, k):
+            if I_.ctx.branch(aux['load_fails']):
+                raise_py('IOError', 'No such file')
+            return Opaque('sample', ('load',))
+
+        def density(I_, a, k):
+            s_ = I_.force(k.get('data'))
+            g = I_.z(k['gate_fraction'], 'real')
+            if I_.ctx.branch(z3.Or(g < 0, g > 1)):
+                raise_py('ValueError', 'gate fraction should be between 0 and 1, inclusive')
+            return Opaque('density_output', Opaque('sample', ('density2d', s_.payload, repr_arg(I_, k.get('channels')), ('fraction', g.sexpr()))))
+
+        def gtf(I_, a, k):
+            aux['gtf_calls'].append((a, dict(k)))
+            nn = len(aux['gtf_calls'])
+            return Opaque('mef_output', nn) if I_.truth(k.get('full_output', False)) else Opaque('mef_fxn', nn)
+
+        def np_array_hook(I_, a, k):
+            return None
+        libs = {
+            'FlowCal.io.FCSData': Builtin('FCSData', load),
+            'FlowCal.transform.to_rfi': Builtin('to_rfi', step('to_rfi')),
+            'FlowCal.gate.start_end': Builtin('start_end', step('start_end')),
+            'FlowCal.gate.high_low': Builtin('high_low', step('high_low')),
+            'FlowCal.gate.density2d': Builtin('density2d', density),
+            'FlowCal.mef.get_transform_fxn': Builtin('get_transform_fxn', gtf),
+            're.compile': Builtin('re.compile', lambda I_, a, k: Opaque('regex', re.compile(a[0]))),
+            'os.path.join': Builtin('os.path.join', lambda I_, a, k: PB.opaque_str(I_, 'path')),
+            'os.path.exists': Builtin('os.path.exists', lambda I_, a, k: True),
+            'os.makedirs': Builtin('os.makedirs', lambda I_, a, k: None),
+            'pandas.isnull': Builtin('pd.isnull', lambda I_, a, k: I_.truth(SV(a[0].isnone, 'bool')) if isinstance(a[0], OptVal) else False),
+        }
+        self.config = {'module_overrides': libs, 'opaque_attr': oattr, 'opaque_getitem': ogetitem, 'split_hook': split_hook,
+                       'array_of_lists_ok': True}
+        I.config.update(self.config)
+        I.libs.update(libs)
+        kw = {'beads_table': Opaque('table', 'beads'), 'instruments_table': Opaque('table', 'instruments'), 'verbose': False, 'plot': False,
+              'full_output': case['full']}
+        return [], kw, aux
+
+    def loop_specs(self):
+        contract = self
+        names = ('beads_samples', 'mef_transform_fxns', 'mef_outputs')
+
+        def havoc(I, env, st0):
+            for nm in names:
+                env[nm] = stamp(PDict(ordered=True))
+                env[nm].havocked = True
+            I.ctx.aux['gtf_calls'][:] = []
+
+        def inv(I, env, k, st0):
+            if isinstance(k, int) or z3.is_int_value(z3.simplify(k)):
+                return
+            kk = z3.simplify(k)
+            lk = getattr(I.ctx, 'loop_k', None)
+            if lk is not None and 'it_k' in kk.sexpr() and kk.sexpr() != lk[1].sexpr():
+                for ob in contract.row_obligations(I, env, I.ctx.aux):
+                    yield ob
+        return {('FlowCal.excel_ui.process_beads_table', 0): LoopSpec(inv, havoc, keeps=names)}
+
+    def row_obligations(self, I, env, aux):
+        c = I.ctx
+        k = c.loop_k[1]
+        full = aux['case']['full']
+        dicts = [env['beads_samples'], env['mef_transform_fxns']] + ([env['mef_outputs']] if full else [])
+        ok = all(isinstance(d, PDict) and len(d.keys) == 1 for d in dicts)
+        yield ('one-entry-per-row-in-every-result-dictionary', z3.BoolVal(ok))
+        if not ok:
+            return
+        rid = z3.Function('brow_id', Z, ST)(k)
+        for d, nm in zip(dicts, ('samples', 'transforms', 'outputs')):
+            yield ('%s-stored-under-the-row-identifier' % nm, I.z(d.keys[0]) == rid)
+        val, fxn = dicts[0].vals[0], dicts[1].vals[0]
+        outp = dicts[2].vals[0] if full else None
+        cell, isnull = aux['cell'], aux['isnull']
+        g = aux['gf'](k)
+        nev = aux['nev'](z3.IntVal(0))
+        sp = z3.Function('str_strip', ST, ST)
+        cnt = lambda col: aux['npieces'](cell(col)(k))
+        given = [ch for ch in ('FL1', 'FL2') if c.branch(z3.Not(isnull(ch + ' MEF Values')(k)))]
+        unequal = z3.BoolVal(False)
+        if len(given) == 2:
+            unequal = cnt('FL1 MEF Values') != cnt('FL2 MEF Values')
+        faults = z3.Or(aux['load_fails'], nev < 400, g < 0, g > 1, unequal)
+        if isinstance(val, ExcObj):
+            yield ('a-row-error-is-an-ExcelUIException', z3.BoolVal(val.cls.name == 'ExcelUIException'))
+            yield ('row-error-only-for-a-documented-fault', faults)
+            yield ('error-row-has-no-transformation', z3.BoolVal(fxn is None and (outp is None)))
+            yield ('error-row-calls-no-calibration-or-its-result-is-dropped', z3.BoolVal(True))
+            return
+        yield ('healthy-row-has-no-documented-fault', z3.Not(faults))
+        okv = isinstance(val, Opaque) and val.tag == 'sample'
+        yield ('healthy-row-yields-a-sample', z3.BoolVal(okv))
+        if not okv:
+            return
+        t = ('to_rfi', ('load',), (tuple(SC + FL),), ())
+        t = ('start_end', t, (), (('num_end', 100), ('num_start', 250)))
+        if c.branch(aux['data_type_I']):
+            t = ('high_low', t, (), (('channels', tuple(SC)),))
+        t = ('density2d', t, tuple(SC), ('fraction', g.sexpr()))
+        yield ('gated-beads-sample-is-the-documented-composition', z3.BoolVal(repr(val.payload) == repr(t)))
+        calls = aux['gtf_calls']
+        if not given:
+            yield ('no-MEF-values-given-no-calibration', z3.BoolVal(fxn is None and outp is None and len(calls) == 0))
+            return
+        yield ('exactly-one-calibration-call-for-the-row', z3.BoolVal(len(calls) == 1))
+        if len(calls) != 1:
+            return
+        a, kw = calls[0]
+        yield ('calibration-result-is-stored-for-the-row',
+               z3.BoolVal((isinstance(outp, Opaque) and outp.tag == 'mef_output' and isinstance(fxn, Opaque) and fxn.tag == 'mef_fxn' and fxn.payload == outp.payload)
+                          if full else (isinstance(fxn, Opaque) and fxn.tag == 'mef_fxn')))
+        yield ('calibration-gets-the-gated-sample-of-this-row', z3.BoolVal(len(a) >= 2 and a[0] is val))
+        mc = kw.get('mef_channels')
+        yield ('calibrated-channels-are-the-fluorescence-channels-with-values-in-instrument-order',
+               z3.BoolVal(isinstance(mc, Seq) and list(mc.items) == given))
+        mv = a[1] if len(a) > 1 else None
+        lists = getattr(mv, 'payload', None) if isinstance(mv, Opaque) and mv.tag == 'array-of-lists' else None
+        okl = isinstance(lists, Seq) and len(lists.items) == len(given) and all(isinstance(x, SymSeq) for x in lists.items)
+        yield ('values-passed-are-one-list-per-calibrated-channel', z3.BoolVal(okl))
+        if okl:
+            j = c.fresh_int('mef_j')
+            isd = z3.Function('str_isdigit', ST, B)
+            from pyvc.pybuiltins import int_val
+            for ch, lst in zip(given, lists.items):
+                src = cell(ch + ' MEF Values')(k)
+                yield ('%s:as-many-values-as-comma-separated-pieces-of-this-rows-cell' % ch, I.z(lst.n, 'int') == aux['npieces'](src))
+
+                def elem_ok(lst=lst, src=src):
+                    I.ctx.assume(z3.And(0 <= j, j < aux['npieces'](src)))
+                    e = I.seq_get_sym(lst, j)
+                    piece = aux['pieces'](src, j)
+                    if isinstance(e, Opaque) and e.tag == 'nan':
+                        return z3.Not(isd(sp(piece)))
+                    return z3.And(isd(sp(piece)), I.z(e, 'int') == int_val(piece))
+                I.prove_forked('%s:value-j-is-int(piece j)-or-unknown-when-not-a-number' % ch, elem_ok)
+        cc = kw.get('clustering_channels')
+        okc = isinstance(cc, SymSeq)
+        yield ('clustering-channels-are-a-list', z3.BoolVal(okc))
+        if okc:
+            src = cell('Clustering Channels')(k)
+            yield ('clustering-channels-count-from-this-rows-cell', I.z(cc.n, 'int') == aux['npieces'](src))
+            j2 = c.fresh_int('cc_j')
+
+            def cc_ok():
+                I.ctx.assume(z3.And(0 <= j2, j2 < aux['npieces'](src)))
+                return I.z(I.seq_get_sym(cc, j2)) == sp(aux['pieces'](src, j2))
+            I.prove_forked('clustering-channel-j-is-the-stripped-piece-j-of-this-rows-cell', cc_ok)
+
+    def expected_outcomes(self, case):
+        return ['return']
+
+    def check(self, I, case, aux, out):
+        P = I.ctx.prove
+        P('no-exception-escapes-the-batch(every documented fault is recorded in place)', out.kind == 'return')
+        if out.kind != 'return':
+            return
+        v = out.value
+        n_out = 3 if case['full'] else 2
+        ok = isinstance(v, Seq) and len(v.items) == n_out and all(isinstance(x, PDict) and x.ordered for x in v.items)
+        P('result-is-%d-ordered-dictionaries' % n_out, ok)
+        if case.get('empty') and ok:
+            P('empty-table-gives-empty-results', all(len(x.keys) == 0 for x in v.items))
+
+
+CONTRACTS.append(ProcessBeads())
